@@ -198,31 +198,131 @@ def signer_init_live(mod):
 
 # ---------------------------------------------------------------------------- SoftwareSigner
 # public names of SoftwareSigner that answer no question about a held key while open/closed matters:
-# the constructor, the state itself, and the three read-only descriptions of the signer
-SS_EXEMPT = {"from_accounts", "close", "xkey", "is_watch_only", "master_fingerprint", "capabilities"}
+# the constructor, the state itself, and the read-only descriptions of the signer.  Each is CHECKED below to be what it
+# is listed as (a classmethod / `close` / a property) and to reach no signing primitive.
+SS_EXEMPT = {"from_accounts": "classmethod", "close": "function", "xkey": "property", "is_watch_only": "property",
+             "master_fingerprint": "property", "capabilities": "property"}
+# fields of the object that are NOT key material; every other `self._x` is taken for key material (a new field is secret
+# until listed here)
+SS_NOT_SECRET = {"_closed", "_musig2", "_fingerprint"}
 
 
-def software_signer_methods():
-    """every public name of the class, enumerated from the class itself: a new one must be classified."""
-    names = [n for n in vars(psbt_signer.SoftwareSigner) if not n.startswith("_")]
-    methods = [n for n in names if n not in SS_EXEMPT]
-    for n in methods:
-        if not inspect.isfunction(vars(psbt_signer.SoftwareSigner)[n]):
+def _ss_members(cls=None):
+    """name -> (kind, function) for every name defined along the MRO (object excluded), nearest definition first."""
+    cls = cls or psbt_signer.SoftwareSigner
+    out = {}
+    for k in cls.__mro__[:-1]:
+        for n, v in vars(k).items():
+            if n in out:
+                continue
+            if inspect.isfunction(v):
+                out[n] = ("function", v)
+            elif isinstance(v, property):
+                out[n] = ("property", v.fget)
+            elif isinstance(v, classmethod):
+                out[n] = ("classmethod", v.__func__)
+            elif isinstance(v, staticmethod):
+                out[n] = ("staticmethod", v.__func__)
+            else:
+                out[n] = ("other", None)
+    return out
+
+
+def _resolve(node, glb):
+    """the object a callee expression names in the module's globals (`sign`, `dsa.sign_`, `ssa.Signer`), else None."""
+    if isinstance(node, ast.Name):
+        return glb.get(node.id)
+    if isinstance(node, ast.Attribute):
+        base = _resolve(node.value, glb)
+        return getattr(base, node.attr, None) if base is not None else None
+    return None
+
+
+def _is_signing_primitive(obj):
+    """a function or class of btclib's ecc / psbt layers that makes signatures (dsa.sign_, ssa.sign_, ssa.Signer, bms.sign,
+    musig2.sign, psbt.sign, …)."""
+    mod = getattr(obj, "__module__", "") or ""
+    name = (getattr(obj, "__qualname__", "") or "").lower()
+    return callable(obj) and (mod + ".").startswith(("btclib.ecc.", "btclib.psbt.")) and "sign" in name
+
+
+def _ss_direct(fn, members):
+    """what one body does by itself: reads key material / calls a signing primitive or hands `self` to a call / which
+    other members of the class it goes through."""
+    src = textwrap.dedent(inspect.getsource(fn))
+    tree = ast.parse(src).body[0]
+    selfname = tree.args.args[0].arg if tree.args.args else None
+    keys = prim = False
+    edges = set()
+    for n in ast.walk(tree):
+        if isinstance(n, ast.Attribute) and isinstance(n.value, ast.Name) and n.value.id == selfname:
+            if n.attr in members:
+                edges.add(n.attr)
+            elif n.attr.startswith("_") and not n.attr.startswith("__") and n.attr not in SS_NOT_SECRET:
+                keys = True
+        if isinstance(n, ast.Call):
+            if _is_signing_primitive(_resolve(n.func, fn.__globals__)):
+                prim = True
+            if any(isinstance(a, ast.Name) and a.id == selfname for a in list(n.args) + [k.value for k in n.keywords]):
+                prim = True     # `sign(psbt, self)`: the object is handed out as a KeyManager
+    return keys, prim, edges
+
+
+def software_signer_reach(cls=None):
+    """name -> (reads key material, reaches a signing primitive), both through every member of the class it goes through."""
+    members = _ss_members(cls)
+    direct = {n: _ss_direct(f, members) for n, (k, f) in members.items() if f is not None}
+    out = {}
+    for n in direct:
+        seen, todo = set(), [n]
+        keys = prim = False
+        while todo:
+            m = todo.pop()
+            if m in seen or m not in direct:
+                continue
+            seen.add(m)
+            k, p, e = direct[m]
+            keys, prim = keys or k, prim or p
+            todo += list(e)
+        out[n] = (keys, prim)
+    return out
+
+
+def software_signer_methods(cls=None):
+    """every public name of the class (inherited ones included), enumerated from the class itself: a new one must be a plain
+    method (then it is classified by what its body reaches) or be listed exempt; the exempt ones are checked."""
+    members = _ss_members(cls)
+    reach = software_signer_reach(cls)
+    methods = []
+    for n, (kind, _) in members.items():
+        if n.startswith("_"):
+            continue
+        if n in SS_EXEMPT:
+            if kind != SS_EXEMPT[n]:
+                raise Unrecognised(f"SoftwareSigner.{n}: listed exempt as a {SS_EXEMPT[n]}, is a {kind}")
+            if kind != "classmethod" and reach[n][1]:
+                raise Unrecognised(f"SoftwareSigner.{n}: listed exempt, but its body reaches a signing primitive")
+            continue
+        if kind != "function":
             raise Unrecognised(f"SoftwareSigner.{n}: a public name that is neither a plain method nor classified exempt")
+        methods.append(n)
     return methods
 
 
-def software_signer_guards():
+def software_signer_guards(cls=None):
     rows = []
-    for name in software_signer_methods():
-        body, _ = _body(getattr(psbt_signer.SoftwareSigner, name))
+    members = _ss_members(cls)
+    for name in software_signer_methods(cls):
+        body, _ = _body(members[name][1])
         rows.append((name, bool(body) and _u(body[0]) == "self._assert_open()"))
     return rows
 
 
-def software_signer_signing():
-    """the methods that produce a signature: every public method named sign*."""
-    return [n for n in software_signer_methods() if n.startswith("sign")]
+def software_signer_signing(cls=None):
+    """the methods that can produce a signature or hand out a key: those whose body, through whatever members of the class
+    it goes, reads the key material or reaches a signing primitive.  Decided by what the body REACHES, not by its name."""
+    reach = software_signer_reach(cls)
+    return [n for n in software_signer_methods(cls) if reach[n][0] or reach[n][1]]
 
 
 def software_signer_facts():
@@ -359,6 +459,80 @@ def wordlist_load_facts():
     return order, fast_path, checks_under_lock and readers
 
 
+# ---------------------------------------------------------------------------- every memo of the package, by introspection
+_MUTATORS = {"append", "add", "update", "setdefault", "pop", "popitem", "clear", "extend", "insert", "remove", "discard",
+             "move_to_end"}
+
+
+def cache_inventory():
+    """every memo of btclib, found on the IMPORTED package (all modules walked and imported): functools.lru_cache / cache
+    wrappers at module level or on a class, functools.cached_property, and module-level containers that a function of the
+    module fills (AST).  -> sorted [(qualified name, hold, maxsize or None, curve in the key, live object, owner)]"""
+    import functools  # noqa: PLC0415
+    import importlib  # noqa: PLC0415
+    import pkgutil  # noqa: PLC0415
+    import btclib  # noqa: PLC0415
+    wrapper = type(functools.lru_cache(lambda: 0))
+    rows = {}
+
+    def curve_keyed(fn):
+        try:
+            return any(p_ in ("ec", "curve") for p_ in inspect.signature(fn).parameters)
+        except (TypeError, ValueError):
+            return False
+
+    for mi in pkgutil.walk_packages(btclib.__path__, "btclib."):
+        m = importlib.import_module(mi.name)
+        for n, v in vars(m).items():
+            if isinstance(v, wrapper) and getattr(v, "__module__", None) == m.__name__:
+                ms = v.cache_parameters()["maxsize"]
+                rows[f"{m.__name__}.{v.__qualname__}"] = ("lru" if ms is not None else "unbounded", ms, curve_keyed(v.__wrapped__), v, m)
+            if isinstance(v, type) and v.__module__ == m.__name__:
+                for cn, cv in vars(v).items():
+                    f = cv.__func__ if isinstance(cv, (staticmethod, classmethod)) else cv
+                    if isinstance(f, wrapper):
+                        ms = f.cache_parameters()["maxsize"]
+                        rows[f"{m.__name__}.{v.__qualname__}.{cn}"] = ("lru" if ms is not None else "unbounded", ms,
+                                                                       curve_keyed(f.__wrapped__), f, v)
+                    if isinstance(cv, functools.cached_property):
+                        rows[f"{m.__name__}.{v.__qualname__}.{cn}"] = ("perInstance", None, False, cv, v)
+        f = getattr(m, "__file__", None)
+        if not f or not f.endswith(".py"):
+            continue
+        tree = ast.parse(open(f).read())
+        modnames = set()
+        for st in tree.body:
+            if isinstance(st, (ast.Assign, ast.AnnAssign)):
+                for t in (st.targets if isinstance(st, ast.Assign) else [st.target]):
+                    if isinstance(t, ast.Name):
+                        modnames.add(t.id)
+        for fn in ast.walk(tree):
+            if not isinstance(fn, (ast.FunctionDef, ast.AsyncFunctionDef)):
+                continue
+            stored = {x.id for x in ast.walk(fn) if isinstance(x, ast.Name) and isinstance(x.ctx, ast.Store)}
+            params = {a.arg for a in fn.args.args + fn.args.kwonlyargs + fn.args.posonlyargs}
+            for n in ast.walk(fn):
+                tgt = None
+                if isinstance(n, (ast.Assign, ast.AugAssign, ast.Delete)):
+                    for t in (n.targets if not isinstance(n, ast.AugAssign) else [n.target]):
+                        if isinstance(t, ast.Subscript) and isinstance(t.value, ast.Name):
+                            tgt = t.value.id
+                if isinstance(n, ast.Call) and isinstance(n.func, ast.Attribute) and n.func.attr in _MUTATORS \
+                        and isinstance(n.func.value, ast.Name):
+                    tgt = n.func.value.id
+                if tgt and tgt in modnames and tgt not in params and tgt not in stored and hasattr(m, tgt):
+                    keyed = "Curve" in (ast.get_source_segment(open(f).read(), next(
+                        (st for st in tree.body if isinstance(st, ast.AnnAssign) and _u(st.target) == tgt), fn)) or "")
+                    rows[f"{m.__name__}.{tgt}"] = ("moduleTable", None, keyed, getattr(m, tgt), m)
+    return [(k, *rows[k]) for k in sorted(rows)]
+
+
+def _cache_decl(row):
+    name, hold, ms = row[0], row[1], row[2]
+    h = f".lru {ms}" if hold == "lru" else "." + hold
+    return f'⟨"{name}", {h}, {"true" if row[3] else "false"}⟩'
+
+
 def _lst(ty, items):
     return "[" + ", ".join("." + i for i in items) + f"]"
 
@@ -381,12 +555,16 @@ def constants():
     rows = software_signer_guards()
     txt += "/-- `SoftwareSigner`: (public method, whether its first statement is `self._assert_open()`) -/\n"
     txt += "def softwareSignerGuards : List (String × Bool) := [" + ", ".join(f'("{n}", {b(g)})' for n, g in rows) + "]\n"
-    txt += "/-- the public methods of `SoftwareSigner` that produce a signature (every public `sign*`), enumerated from the class -/\n"
+    txt += "/-- the public methods of `SoftwareSigner` whose body reaches the key material or a signing primitive (through any\n"
+    txt += "    member of the class it goes through), enumerated from the class and classified by AST reachability -/\n"
     txt += "def softwareSignerSigning : List String := [" + ", ".join(f'"{n}"' for n in software_signer_signing()) + "]\n"
     cs, ao, io = software_signer_facts()
     txt += f"def softwareSignerCloseSets : Bool := {b(cs)}\n"
     txt += f"def softwareSignerAssertOpenRaises : Bool := {b(ao)}\n"
     txt += f"def softwareSignerInitOpen : Bool := {b(io)}\n\n"
+    txt += "/-- every memo of the imported btclib package (lru_cache / cache wrappers, cached_property, module-level containers a\n"
+    txt += "    function fills), found by introspection each run: name, how it holds entries, whether a curve is in its key -/\n"
+    txt += "def cacheInventory : List CacheDecl := [\n  " + ",\n  ".join(_cache_decl(r) for r in cache_inventory()) + "]\n\n"
     order, fast, readers = wordlist_load_facts()
     txt += "/-- `WordLists.load_lang`: the order it publishes its three fields in (inside the lock), whether a statement outside\n"
     txt += "    the lock reads them (a lock-free fast path), and whether every reader calls `load_lang` first -/\n"
